@@ -226,13 +226,12 @@ func (r Iterator[T]) DropWhile(p func(T) bool) Iterator[T] {
 
 func (r Iterator[T]) Filter(p func(T) bool) Iterator[T] {
 
-	first := true
 	var fv Option[T] = None[T]()
 
 	hasNext := func() bool {
-		if first {
+		if fv.IsEmpty() {
+			// look for the next match only when it is asked for
 			fv = r.Find(p)
-			first = false
 		}
 		return fv.IsDefined()
 	}
@@ -243,7 +242,7 @@ func (r Iterator[T]) Filter(p func(T) bool) Iterator[T] {
 			if hasNext() {
 
 				ret := fv.Get()
-				fv = r.Find(p)
+				fv = None[T]()
 				return ret
 			}
 			return r.nextOnEmpty()
